@@ -598,6 +598,11 @@ size_t rtosc_print_arg_val(const rtosc_arg_val_t *arg,
                     // snip part before separator
                     const char* sep = strchr(buffer + lastwrt, '.');
                     assert(sep);
+                    // a fraction that rounds up to "1.00" must not lose
+                    // its carry: print the largest fraction instead (".99")
+                    if(buffer[lastwrt] != '0')
+                        memset(buffer + (sep - buffer) + 1, '9',
+                               strlen(sep + 1));
                     memmove(buffer + lastwrt, sep, strlen(sep)+1);
                     wrt -= (sep - (buffer + lastwrt));
 
